@@ -661,13 +661,22 @@ def fam_C12(seed, n):
         emit_cfg(sc, codec, cfg, None, r)
         SALT[0] = ".%d" % r.randint(0, 9999)
         ns = r.randint(2, 5)
+        minted = 0
         for _ in range(r.randint(5, 16)):
             x = r.random()
             if x < 0.55:
+                if minted > 1 and r.random() < 0.2:
+                    # a request that still carries an older id (a replaced one inside its grace period reaches the live session,
+                    # which is then the most recently used one)
+                    req(sc, r.randrange(ns), spec="val:g%d" % r.randrange(minted), create=0)
+                    sc.add("end")
+                    continue
                 req(sc, r.randrange(ns))
+                minted += 1
                 y = r.random()
                 if y < 0.15:
                     sc.add("h regen")
+                    minted += 1
                 elif y < 0.22:
                     sc.add("h destroy")
                 elif y < 0.4:
@@ -759,7 +768,8 @@ def crash_variants(name, script, blocks):
     lines = script.rstrip("\n").split("\n")
     for b in blocks:
         muts = [e for e in b.evs if (e[0] in ("save", "del")) and e[-1] != "fail"]
-        changes = any(e[0] == "save" and any(t.startswith("rf=") and t != "rf=-" for t in e[2:]) for e in b.evs)
+        # an id change: a save of a record that refers on - or of one the package's own decoder cannot read back (then nobody knows)
+        changes = any(e[0] == "save" and (any(t.startswith("rf=") and t != "rf=-" for t in e[2:]) or "undecodable" in e[2:]) for e in b.evs)
         if not changes:
             continue
         for k in range(len(muts) + 1):
@@ -776,7 +786,8 @@ def fault_crash_variants(name, script, blocks):
     lines = script.rstrip("\n").split("\n")
     for b in blocks:
         saves = [e for e in b.evs if e[0] == "save"]
-        changes = any(e[0] == "save" and any(t.startswith("rf=") and t != "rf=-" for t in e[2:]) for e in b.evs)
+        # an id change: a save of a record that refers on - or of one the package's own decoder cannot read back (then nobody knows)
+        changes = any(e[0] == "save" and (any(t.startswith("rf=") and t != "rf=-" for t in e[2:]) or "undecodable" in e[2:]) for e in b.evs)
         if not changes:
             continue
         # the request's `end` line
